@@ -58,7 +58,7 @@ theorem text_noAddr_of_not_hasOp (e : Err) (h : e.hasOp = false) : noAddr e.text
 theorem opError_bare_text (op net : String) (inner : Err) (h : noAddr inner.text = true) :
     noAddr (Err.opError op net none none inner).text = true := by
   simp only [Err.text, List.append_nil]
-  split <;> simp [noAddr_append, noAddr_cons, Tok.isStr, h]
+  split <;> simp [noAddr_cons, Tok.isStr, h]
 
 /-- **`strip` removes every address** -/
 theorem strip_noAddr (e : Err) : noAddr e.strip.text = true := by
